@@ -1,0 +1,62 @@
+//go:build verif
+
+// Contracts for package wal, read by /verif/kvc (contract-based deductive verification).
+// This file is comment-only and excluded from every build without the `verif` tag.
+package wal
+
+// C08: the sequence counter of a log never decreases: every store to it, anywhere in the program, is an obligation.
+//@ monotone[C08] (*WAL).nextSequence
+
+//@ func NewWAL
+//@   ensures[C08] err == nil ==> result0 != nil && fresh(result0) && result0.nextSequence == 1
+//@   ensures[C08] err != nil ==> result0 == nil
+//@ func ReuseWAL
+//@   ensures[C08] err == nil && result0 != nil ==> fresh(result0) && result0.nextSequence == nextSeq
+//@   ensures[C08] err != nil ==> result0 == nil
+
+//@ func (*WAL).Append
+//@   modifies w.nextSequence, w.bytesWritten, w.batchByteSize, w.overflowWarning, w.lastSync
+//@   ensures[C08]     w.nextSequence >= old(w.nextSequence)
+//@   ensures[C08,C01] err == nil ==> result0 == old(w.nextSequence) && w.nextSequence == old(w.nextSequence) + 1
+//@   ensures[C08]     err == nil ==> result0 < MaxSequenceNumber
+//@   ensures[C06]     (err == ErrWALRotating || err == ErrWALClosed || err == ErrInvalidOpType || err == ErrSequenceOverflow) ==> w.nextSequence == old(w.nextSequence)
+//@   ensures[C08]     err != nil ==> result0 == 0
+
+// A batch consumes exactly one sequence number, shared by its entries; an empty batch consumes none.
+//@ func (*WAL).AppendBatch
+//@   modifies w.nextSequence, w.bytesWritten, w.batchByteSize, w.overflowWarning, w.lastSync, w.writer, all(Mem byte)
+//@   ensures[C08]     w.nextSequence >= old(w.nextSequence)
+//@   ensures[C08]     err == nil && len(entries) == 0 ==> result0 == old(w.nextSequence) && w.nextSequence == old(w.nextSequence)
+//@   ensures[C08,C01] err == nil && len(entries) > 0 ==> result0 == old(w.nextSequence) && w.nextSequence == old(w.nextSequence) + 1
+//@   ensures[C08]     err == nil ==> result0 < MaxSequenceNumber || len(entries) == 0
+//@   ensures[C03,C06] (err == ErrWALRotating || err == ErrWALClosed || err == ErrSequenceOverflow) ==> w.nextSequence == old(w.nextSequence)
+
+//@ func (*WAL).maybeSync
+//@   modifies w.lastSync, w.batchByteSize
+//@   ensures[C06] err == ErrWALRotating ==> w.status == WALStatusRotating
+//@   ensures[C06] err == ErrWALClosed ==> w.status == WALStatusClosed
+//@   ensures[C06] err != ErrInvalidOpType && err != ErrSequenceOverflow
+//@ func (*WAL).syncLocked
+//@   modifies w.lastSync, w.batchByteSize
+//@   ensures[C06] err == ErrWALRotating ==> w.status == WALStatusRotating
+//@   ensures[C06] err == ErrWALClosed ==> w.status == WALStatusClosed
+//@   ensures[C06] err != ErrInvalidOpType && err != ErrSequenceOverflow
+//@ func (*WAL).writeRecord
+//@   modifies w.bytesWritten, w.batchByteSize
+//@   ensures[C06] err != ErrWALRotating && err != ErrWALClosed && err != ErrInvalidOpType && err != ErrSequenceOverflow
+//@ func (*WAL).writeFragmentedRecord
+//@   modifies w.bytesWritten, w.batchByteSize
+//@   ensures[C06] err != ErrWALRotating && err != ErrWALClosed && err != ErrInvalidOpType && err != ErrSequenceOverflow
+//@ func (*WAL).writeRawRecord
+//@   modifies w.bytesWritten, w.batchByteSize
+//@   ensures[C06] err != ErrWALRotating && err != ErrWALClosed && err != ErrInvalidOpType && err != ErrSequenceOverflow
+//@ func (*WAL).writeRecordData
+//@   modifies w.bytesWritten, w.batchByteSize
+//@   ensures[C06] err != ErrWALRotating && err != ErrWALClosed && err != ErrInvalidOpType && err != ErrSequenceOverflow
+
+//@ func (*WAL).UpdateNextSequence
+//@   modifies w.nextSequence, w.overflowWarning
+//@   ensures[C08] w.nextSequence == max(old(w.nextSequence), nextSeq)
+//@ func (*WAL).GetNextSequence
+//@   modifies nothing
+//@   ensures[C08] result == w.nextSequence
